@@ -98,8 +98,13 @@ def addDiscoveredOld (s : St) (d : Data) (now : Nat) : St × Bool :=
 def spdp (s : St) (d : Data) (now : Nat) : St × Bool := addDiscovered (touch s d.key now) d now
 def spdpOld (s : St) (d : Data) (now : Nat) : St × Bool := addDiscoveredOld (touch s d.key now) d now
 
-/-- remove_discovered_participant (participant list part) -/
+/-- remove_discovered_participant (participant list part); also the handling of a received dispose / unregister
+    (process_discovered_participants_detector_cache_change): ignored_participants is NOT touched -/
 def remove (s : St) (k : Nat) : St := { s with list := s.list.filter (entryNotKey k) }
+
+/-- a variant that is NOT the code (seeded change C17_d, kept as a witness of what `C17_ignored_forever` rules out): the
+    dispose / unregister of a participant also takes it out of ignored_participants -/
+def removeSeeded (s : St) (k : Nat) : St := { remove s k with ignored := s.ignored.filter (fun h => !(h == k)) }
 
 def stale (now : Nat) (e : Entry) : Bool := decide (now - e.lastSeen > e.lease)
 
